@@ -17,7 +17,7 @@ Extraction "../ocaml/extracted/hb.ml"
   Gen.probe_seq probe_positions Gen.rehash_guard_unconditional Gen.serde_cautious Gen.split_mid
   Group.sse2_backend Group.generic_backend
   Group.g_match_tag Group.g_match_full Group.g_any_empty Group.g_lowest_eod Group.g_empty_lz Group.g_empty_tz Group.g_convert
-  Group.bm_iter
+  Group.bm_iter Gen.bm_any_bit_set Gen.bm_lowest_set_bit Gen.bm_leading_zeros Gen.bm_trailing_zeros
   Raw.new_table Map.map_step
   Check.safe_wf_check Check.hash_wf_check Check.wf_check Check.occupants
   AssocSpec.spec_accepts AssocSpec.unwind_accepts AssocSpec.same_set.
